@@ -48,3 +48,14 @@ pub fn shard_of(cases: &[Case], nshards: usize) -> Vec<usize> {
     }
     assign
 }
+
+thread_local! {
+    /// interpreters (Miri, valgrind) run reduced matrices: same kinds of arguments, fewer of each
+    static TINY: std::cell::Cell<bool> = const { std::cell::Cell::new(false) };
+}
+pub fn set_tiny(v: bool) {
+    TINY.with(|t| t.set(v));
+}
+pub fn tiny() -> bool {
+    TINY.with(|t| t.get())
+}
